@@ -18,7 +18,7 @@ class C01(Prop):
     num = 1
     regions = {'quick': [('core', 60), ('block', 60), ('routers', 40), ('renege', 40), ('preempt', 40), ('sched', 40),
                          ('schedpre', 30), ('slotted', 30), ('dyn', 30), ('ps', 30), ('all', 60), ('preempt_block', 20),
-                         ('sched_block', 20)],
+                         ('sched_block', 20), ('core_mix', 30), ('renege_jockey', 50), ('batch_mix', 20)],
                }
     rule = ('one case = one observed run of the real engine on a generated network; non-trivial = the run had a '
             'transfer between two service nodes and at least one of {unblocking, batch>1, rejection, renege, reroute}; '
